@@ -44,6 +44,89 @@ DEFECT_KINDS = {
 }
 
 
+# Kinds of errors found by the *same* verification battery of the intermediate stage:
+# errors of different kinds in different classes are independent and must all be
+# reported together (the only documented dependency: the constructor/property match is
+# skipped while some property is not initialised).
+BATTERY_KINDS = {
+    "ctor-type-mismatch": ('''
+class Thing_{i}(DBC):
+    some_name_{i}: str
+
+    def __init__(self, some_name_{i}: int) -> None:
+        self.some_name_{i} = some_name_{i}
+''', "some_name_{i}"),
+    "optional-no-default": ('''
+class Thing_{i}(DBC):
+    some_name_{i}: Optional[str]
+
+    def __init__(self, some_name_{i}: Optional[str]) -> None:
+        self.some_name_{i} = some_name_{i}
+''', "some_name_{i}"),
+    "not-initialized": ('''
+class Thing_{i}(DBC):
+    some_name_{i}: str
+    other_name_{i}: str
+
+    def __init__(self, some_name_{i}: str) -> None:
+        self.some_name_{i} = some_name_{i}
+''', "other_name_{i}"),
+    "model-type-missing": ('''
+class Base_{i}(DBC):
+    some_name_{i}: str
+
+    def __init__(self, some_name_{i}: str) -> None:
+        self.some_name_{i} = some_name_{i}
+
+
+class Child_{i}(Base_{i}):
+    def __init__(self, some_name_{i}: str) -> None:
+        Base_{i}.__init__(self, some_name_{i}=some_name_{i})
+
+
+class User_{i}(DBC):
+    base_{i}: Base_{i}
+
+    def __init__(self, base_{i}: Base_{i}) -> None:
+        self.base_{i} = base_{i}
+''', "Base_{i}"),
+    "bad-call-in-invariant": ('''
+@invariant(lambda self: unknown_function_{i}(self.some_name_{i}), "Must hold {i}.")
+class Thing_{i}(DBC):
+    some_name_{i}: str
+
+    def __init__(self, some_name_{i}: str) -> None:
+        self.some_name_{i} = some_name_{i}
+''', "unknown_function_{i}"),
+    "dup-invariant": ('''
+@invariant(lambda self: len(self.some_name_{i}) > 1, "Same text {i}.")
+@invariant(lambda self: len(self.some_name_{i}) > 2, "Same text {i}.")
+class Thing_{i}(DBC):
+    some_name_{i}: str
+
+    def __init__(self, some_name_{i}: str) -> None:
+        self.some_name_{i} = some_name_{i}
+''', "Same text {i}."),
+}
+
+
+def mixed_conservation_model(rng) -> Tuple[str, List[str], str]:
+    n = rng.choice([2, 2, 3, 4])
+    kinds = rng.sample(sorted(BATTERY_KINDS), n)
+    if "ctor-type-mismatch" in kinds and "not-initialized" in kinds:
+        kinds.remove(rng.choice(["ctor-type-mismatch", "not-initialized"]))
+    bodies, markers = [], []
+    order = list(enumerate(kinds))
+    rng.shuffle(order)
+    for i, kind in order:
+        template, marker = BATTERY_KINDS[kind]
+        bodies.append(template.format(i=i))
+        markers.append(marker.format(i=i))
+    # a correct class in between
+    bodies.insert(rng.randrange(len(bodies) + 1), CLASS_TEMPLATE.format(i=99))
+    return "".join(bodies) + FOOTER, markers, "mixed:" + "+".join(sorted(kinds))
+
+
 def conservation_model(kind: str, k: int, extra: int, rng) -> Tuple[str, List[str]]:
     inject, marker = DEFECT_KINDS[kind]
     n = k + extra
@@ -84,6 +167,17 @@ def grammar_problem(report: str) -> Optional[str]:
         else:
             return "line-neither-entry-nor-indented-continuation"
     return None
+
+
+def render_report(message: str, errors: List[str]) -> str:
+    """Render a report as the statement describes it (independent of the repo's helper)."""
+    parts = [f"{message}:\n"]
+    for error in errors:
+        lines = error.split("\n")
+        parts.append("* " + lines[0] + "\n")
+        for line in lines[1:]:
+            parts.append(("  " + line if line.strip() != "" else line) + "\n")
+    return "".join(parts)
 
 
 def headline_of(stderr: str) -> str:
@@ -144,12 +238,16 @@ def judge_run(chk: harness.Check, name: str, text: str, target: str, result: dri
             if status != "ok":
                 chk.violation("write_error_report-precondition-violated", dict(witness, message=message, errors=errors[:5]))
                 continue
-            stream = io.StringIO()
-            recorder_original(message, errors, stream)
+            rendered = render_report(message, errors)
             chk.count("helper_reports_traced")
-            if stream.getvalue() not in err:
+            if len(errors) >= 2:
+                chk.count("helper_reports_with_several_entries")
+            if rendered not in err:
                 # load_model renders into a string that main writes out: still must be there
-                chk.violation("report-not-on-stderr", dict(witness, rendered=stream.getvalue()[:1500]))
+                chk.violation(
+                    "report-not-rendered-as-headline-and-bulleted-entries"
+                    + ("/several-entries" if len(errors) >= 2 else ""),
+                    dict(witness, expected_rendering=rendered[:1500]))
         if markers is not None:
             chk.count("conservation_cases")
             missing = [m for m in markers if m not in err]
@@ -162,13 +260,13 @@ def judge_run(chk: harness.Check, name: str, text: str, target: str, result: dri
 recorder_original = None
 
 
-def run_and_judge(chk, name, text, target, markers=None, kind="") -> None:
+def run_and_judge(chk, name, text, target, markers=None, kind="", extra_snippets=None) -> None:
     global recorder_original
     recorder = Recorder()
     monitor = hooks.Monitor("aas_core_codegen.run", "write_error_report", recorder.observer)
     recorder_original = monitor.original
     try:
-        result = driver.run_inprocess(text, target)
+        result = driver.run_inprocess(text, target, extra_snippets=extra_snippets)
     finally:
         monitor.uninstall()
     try:
@@ -268,11 +366,26 @@ def worker(args) -> Dict[str, Any]:
         k = rng.choice([2, 3, 5])
         text, markers = conservation_model(kind, k, rng.choice([0, 1, 3]), rng)
         jobs.append((f"conservation/{kind}/k={k}", text, targets[(i + 5) % len(targets)], markers, kind))
-    for idx, (name, text, target, markers, kind) in enumerate(jobs):
+        text, markers, mixed_kind = mixed_conservation_model(rng)
+        jobs.append((f"conservation/{mixed_kind}", text, targets[(i + 6) % len(targets)], markers, "mixed-kinds-of-one-stage"))
+    # reports with several top-level entries: unexpected imports, invalid snippet keys
+    good = corpus.small_common()[shard % len(corpus.small_common())][1]
+    for j in range(2):
+        rng = chk.rng("several", shard, j)
+        imports = rng.sample(["from typing import Any", "from os import path", "from typing import Dict",
+                              "from collections import OrderedDict", "from re import search"], rng.choice([2, 3]))
+        jobs.append((f"several-entries/imports/{shard}/{j}", "\n".join(imports) + "\n" + good,
+                     targets[(shard + j) % len(targets)], [i.split()[-1] for i in imports], "unexpected-imports"))
+        bad_keys = rng.sample(["bad name.txt", "1starts_with_digit.txt", "with-dash.txt", "sub dir/x.txt", "ünï.txt"], rng.choice([2, 3]))
+        jobs.append((f"several-entries/snippets/{shard}/{j}", good, targets[(shard + j + 1) % len(targets)],
+                     list(bad_keys), "invalid-snippet-keys", {k: "content" for k in bad_keys}))
+    for idx, job in enumerate(jobs):
+        name, text, target, markers, kind = job[:5]
+        extra = job[5] if len(job) > 5 else None
         if chk.should_stop(budget):
             chk.count("jobs_skipped_for_budget", len(jobs) - idx)
             break
-        run_and_judge(chk, name, text, target, markers, kind)
+        run_and_judge(chk, name, text, target, markers, kind, extra)
     return chk.export()
 
 
@@ -286,6 +399,7 @@ def main(argv) -> int:
         "reports_grammar_checked": 50,
         "conservation_cases": chk.pick(60, 300),
         "cli_runs": 10,
+        "helper_reports_with_several_entries": 10,
     }
     with concurrent.futures.ProcessPoolExecutor(max_workers=n_shards) as pool:
         jobs = [pool.submit(worker, (list(argv), s, n_shards, n_models, mins)) for s in range(n_shards)]
